@@ -62,6 +62,14 @@ pub struct Case {
     pub unsol: Option<u8>,
     /// fragment size 249..=2048
     pub tx: u16,
+    /// an earlier READ whose response is never confirmed (the session then returns the events to the pool) before
+    /// the judged request is made; its requested variations must leave no trace
+    #[serde(default)]
+    pub pre: Vec<Req>,
+    /// updates made after the READ was selected but before the response is written (snapshot territory of C11: here
+    /// a delivered static value must merely be one the point really held, the snapshot or a later one)
+    #[serde(default)]
+    pub late: Vec<Upd>,
 }
 
 #[derive(Clone, Debug, PartialEq)]
@@ -763,6 +771,8 @@ pub fn run_case_with(case: &Case, agreement: bool) -> CaseOut {
     let mut app = NullApp;
     let unsol_classes = case.unsol.map(|m| if m & 7 == 0 { 7 } else { m & 7 });
     let mut limited = false;
+    // records written after the selection, per point
+    let mut later: BTreeMap<(u8, u16), Vec<Rec>> = BTreeMap::new();
     if let Some(m) = unsol_classes {
         out.label("unsolicited");
         let classes = EventClasses::new(m & 1 != 0, m & 2 != 0, m & 4 != 0);
@@ -780,6 +790,19 @@ pub fn run_case_with(case: &Case, agreement: bool) -> CaseOut {
             block_on_ready(handle.clear_written_events(&mut app));
         }
     } else {
+        if !case.pre.is_empty() {
+            // an abandoned READ: select, write the first fragment, never confirm, reset (what the session does on a
+            // confirm timeout, a new request or a disconnect)
+            let req = Fragment::request(0, func::READ, encode_request(&case.pre)).encode();
+            if let Some(parsed) = ParsedFragment::parse(ParseOptions::default(), &req).ok().and_then(|p| p.to_request().ok()).and_then(|r| r.objects.ok()) {
+                let _ = handle.select(&parsed);
+                let mut buf = vec![0u8; objsize];
+                let mut cursor = scursor::WriteCursor::new(&mut buf);
+                let _ = handle.write_response_headers(&mut cursor);
+                handle.reset();
+                out.label("abandoned_read_before");
+            }
+        }
         let req = Fragment::request(0, func::READ, encode_request(&case.reqs)).encode();
         let parsed = match ParsedFragment::parse(ParseOptions::default(), &req)
             .ok()
@@ -806,6 +829,18 @@ pub fn run_case_with(case: &Case, agreement: bool) -> CaseOut {
             return out;
         }
         limited = case.reqs.iter().any(|r| matches!(r, Req::EventCount(..)));
+        // updates after the selection (they create events that are not part of this response)
+        if !case.late.is_empty() {
+            handle.transaction(|db| {
+                for u in &case.late {
+                    let key = order[(u.point as usize * order.len()) >> 16];
+                    let rec = rec_of(key.0, u);
+                    let _ = apply(db, key.0, key.1, &rec, UpdateOptions::new(true, EventMode::Suppress));
+                    later.entry(key).or_default().push(rec);
+                }
+            });
+            out.label("late_updates");
+        }
         let mut done = false;
         for _ in 0..5000 {
             let mut buf = vec![0u8; objsize];
@@ -1033,7 +1068,15 @@ pub fn run_case_with(case: &Case, agreement: bool) -> CaseOut {
                 return out;
             };
             static_seen.entry(key).or_default().push(*v);
-            match carry_check(*ty, *g, *v, rec, item) {
+            let mut verdict = carry_check(*ty, *g, *v, rec, item);
+            if verdict.is_err() {
+                if let Some(l) = later.get(&key) {
+                    if let Some(ok) = l.iter().map(|r| carry_check(*ty, *g, *v, r, item)).find(|r| r.is_ok()) {
+                        verdict = ok;
+                    }
+                }
+            }
+            match verdict {
                 Ok(lossy) => {
                     if lossy {
                         out.label("lossy_variation");
@@ -1086,6 +1129,10 @@ pub fn run_case_with(case: &Case, agreement: bool) -> CaseOut {
             } else {
                 ok = false;
             }
+        }
+        if later.contains_key(key) && seen.len() == wants.len() {
+            // the point changed after the selection: which of its states decides the promotion is C11's business
+            continue;
         }
         if !ok {
             fail(&mut out, "V-static-once", format!("{}[{}] selected by {} header(s) with base variations {:?}: delivered variations {:?} (configured v{}, flags {:#04x})", TYPE_NAMES[key.0 as usize], key.1, wants.len(), all_bases, seen, spec.svar, rec.flags));
@@ -1299,13 +1346,17 @@ fn case_strategy(tier: Tier) -> BoxedStrategy<Case> {
         proptest::collection::vec(req(), 1..5),
         proptest::option::weighted(0.2, 1u8..8),
         prop_oneof![2 => Just(2048u16), 3 => Just(249u16), 1 => Just(292u16), 2 => 249u16..=2048],
+        prop_oneof![3 => Just(vec![]), 2 => proptest::collection::vec(req(), 1..4)],
+        prop_oneof![3 => Just(vec![]), 1 => proptest::collection::vec(upd(), 1..8)],
     )
-        .prop_map(|(points, updates, reqs, unsol, tx)| Case {
+        .prop_map(|(points, updates, reqs, unsol, tx, pre, late)| Case {
             points,
             updates,
             reqs,
             unsol,
             tx,
+            pre,
+            late,
         })
         .boxed()
 }
